@@ -2690,8 +2690,9 @@ The what argument tells us what sort of state is expected (allowed values are de
                 #
                 # Delete all old occurrences of this tag
                 #
-                for p in self.findProducts(productName, None, tag):
-                    self.unassignTag(tag[0], productName, None, p.stackRoot(), eupsPathDir)
+                for d in self.path:      # stack by stack: findProducts() keeps one product per (name, version, flavor)
+                    for p in self.findProducts(productName, None, tag, d):
+                        self.unassignTag(tag[0], productName, None, p.stackRoot(), eupsPathDir)
                 #
                 # And set it in the Proper Place
                 #
